@@ -105,7 +105,7 @@ P = {
          '§5 C19', 'os._exit models a crash; libhdf5 behaviour assumed.'),
  'C11': (True, 'Lean 4 theorems (CSV round-trip with the exact excluded class; JSON encoder with the exporters\' conversion rules = the documented JSON, which carries what the statement names; archive keys-only round-trip) + correspondence on real result sets',
          'Theorems: csv_parse, csv_columns, fieldOk_false_iff, archive_roundtrip, archive_needs_unique_keys; JSON side (Props/C11Json, C11JsonSpec): json_item, json_results, json_projection, itemJson_faithful, '
-         'archive_item, archive_keys_only, archive_faithful, itemCarried_json, resultsCarried_json. Tie: exporters and ResultsArchiveReader on results of real queries on scratch databases with '
+         'archive_item, archive_keys_only, archive_faithful, itemCarried_json, resultsCarried_json, archive_read_write (Props/C11JsonArchive), json_results_full, json_results_params_irrelevant (Props/C11JsonFull). Tie: exporters and ResultsArchiveReader on results of real queries on scratch databases with '
          'awkward names; CSV text = Lean writeCsv of rows built from the real objects and parses back; JSON: the Lean predicate resultsCarried on (results object, parsed JSON), and the whole document = Model.Json.encode '
          'with the exporter\'s rules (model rules and rules read from the current source; a difference there with the predicate satisfied is a broken correspondence, reported as no-failing-input-found); '
          'archive equal under == and field by field, archive document = the keys-only encoding. Open finding C11-F1 (bare CR).',
